@@ -191,3 +191,101 @@ func VerifHarness_C05_shutdown_race() {
 	}
 	rt.Assert(next.inflight == 0, "C11.shutdown_race.exports_returned")
 }
+
+// VerifHarness_C05_system_sig: the whole-component scenario of VerifHarness_C05_system for the LOGS (SIGNAL=1)
+// and METRICS (SIGNAL=2) batch types: the shard code is shared, but add / itemCount / splitBatch and the export
+// closure are per signal (metrics count data points, not metrics). Same oracle: exactly-once, true outcome,
+// size limits, everything finished at Shutdown.
+func VerifHarness_C05_system_sig() {
+	signal := rt.Param("SIGNAL")
+	callers := rt.Param("CALLERS")
+	items := rt.Param("ITEMS")
+	size := rt.Int("size")
+	rt.Assume(size >= 0)
+	rt.Assume(size <= rt.Param("MAXSIZE"))
+	max := rt.Int("max")
+	rt.Assume(max >= 0)
+	rt.Assume(max <= rt.Param("MAXSIZE"))
+	early := rt.Bool("early")
+	var timeout time.Duration
+	if rt.Bool("timeout") {
+		timeout = 200 * time.Millisecond
+	}
+	next := &verifNext{}
+	for k := 0; k < 4; k++ {
+		next.fail = append(next.fail, rt.Bool("exportFails"))
+	}
+	cfg := &Config{SendBatchSize: uint32(size), SendBatchMaxSize: uint32(max), Timeout: timeout, EarlyReturn: early}
+	if cfg.Validate() != nil {
+		return
+	}
+	bp := verifProcessorFromConfig(cfg, &verifTracer{}, func() batch {
+		if signal == 1 {
+			return newBatchLogs(next)
+		}
+		return newBatchMetrics(next)
+	})
+	rt.Reach("C05.system.config_valid")
+	if err := bp.Start(context.Background(), nil); err != nil {
+		rt.Assert(false, "C05.system.start")
+	}
+	results := make([]error, callers)
+	counts := make([]int, callers)
+	var wg sync.WaitGroup
+	for c := 0; c < callers; c++ {
+		n := rt.Int("n")
+		rt.Assume(n >= 1)
+		rt.Assume(n <= items)
+		counts[c] = n
+		wg.Add(1)
+		go func(c, n int) {
+			defer wg.Done()
+			if signal == 1 {
+				results[c] = bp.ConsumeLogs(context.Background(), verifLogsReq(int64(100*(c+1)), n))
+			} else {
+				results[c] = bp.ConsumeMetrics(context.Background(), verifMetricsReq(int64(100*(c+1)), n))
+			}
+		}(c, n)
+	}
+	wg.Wait()
+	if err := bp.Shutdown(context.Background()); err != nil {
+		rt.Assert(false, "C05.system.shutdown")
+	}
+	seen := map[int64]int{}
+	for _, e := range next.exports {
+		rt.Assert(len(e.ids) > 0, "C09.system.no_empty_batch")
+		if max > 0 {
+			rt.Assert(len(e.ids) <= max, "C09.system.max_size")
+		}
+		for _, id := range e.ids {
+			seen[id]++
+		}
+	}
+	total := 0
+	for c := 0; c < callers; c++ {
+		anyFailed := false
+		for i := 0; i < counts[c]; i++ {
+			id := int64(100*(c+1) + i)
+			rt.Assert(seen[id] == 1, "C05.system.exactly_once")
+			total++
+			for _, e := range next.exports {
+				for _, x := range e.ids {
+					if x == id && e.failed {
+						anyFailed = true
+					}
+				}
+			}
+		}
+		if early {
+			rt.Assert(results[c] == nil, "C06.system.early_return_nil")
+		} else {
+			rt.Assert((results[c] == nil) == !anyFailed, "C06.system.true_outcome")
+			if results[c] != nil {
+				rt.Assert(errors.Is(results[c], errVerifExport), "C06.system.error_wraps_export_failure")
+			}
+		}
+	}
+	rt.Assert(len(seen) == total, "C05.system.nothing_invented")
+	rt.Assert(next.inflight == 0, "C11.system.exports_returned_at_shutdown")
+	rt.Assert(verifLeaked() == 0, "C11.system.no_goroutine_left")
+}
